@@ -22,6 +22,7 @@ class Connection:
         self.nreads = 0
         self.eof_seen_by_device = False
         self.tag = None
+        self.reply_fn = None
 
 
 class Reader:
@@ -157,6 +158,9 @@ class World:
         self.loop_errors = []
 
     def reply(self, conn, k):
+        fn = getattr(conn, "reply_fn", None)
+        if fn is not None:
+            return fn(conn, k)
         if self.reply_fn is None:
             raise Unsupported("no scripted reply")
         return self.reply_fn(conn, k)
@@ -224,7 +228,7 @@ def run(coro):
         return si.value
 
 
-def run_interleaved(coros, path, label="sched"):
+def run_interleaved(coros, path, label="sched", on_switch=None):
     """drive several coroutines; at every yield point the scheduler picks who continues.
     returns list of ('ok', value) | ('exc', exception)"""
     n = len(coros)
@@ -235,6 +239,8 @@ def run_interleaved(coros, path, label="sched"):
             k = live[path.choose(len(live), label)]
         else:
             k = live[0]
+        if on_switch is not None:
+            on_switch(k)
         try:
             coros[k].send(None)
         except StopIteration as si:
